@@ -1,4 +1,5 @@
 import PGA.Proofs.EstimateUQ
+import PGA.Proofs.DiagDominant
 import Mathlib.Analysis.Real.Sqrt
 import PGA.Gen.Uq
 /-!
@@ -187,6 +188,17 @@ theorem C20_SE_real_scale (r q c : Rat) :
 satisfiable — e.g. by the zero function (trivially) — and `C20_SE_real` gives the genuine instance. -/
 example : SqrtLike (fun _ => 0) := ⟨rfl, fun _ => le_refl _, fun _ _ _ _ => le_refl _, fun _ _ _ => by simp⟩
 
+/-! ### a general sufficient condition for the PSD hypothesis -/
+
+/-- **General lemma, any size** A square matrix that is symmetric and diagonally dominant (for every row the
+off-diagonal absolute values sum to at most the diagonal entry — so the diagonal is non-negative) is positive
+semi-definite: `0 ≤ xᵀEx` for every `x`.  (The PSD certificate of the shipped matrices — `M = LLᵀ + E` with `E` of
+this kind — is built under C14; this is the lemma it rests on.) -/
+theorem C20_diag_dominant_psd (n : ℕ) (E : List (List Rat)) (hsq : Square n E)
+    (hsym : ∀ i j : Fin n, entry E i j = entry E j i)
+    (hdd : ∀ i : Fin n, ∑ j ∈ Finset.univ.erase i, |entry E i j| ≤ entry E i i) : PSD n E :=
+  diagDominant_PSD n E hsq hsym hdd
+
 /-! ### table obligation over the regenerated uncertainty blocks (`PGA.Gen.Uq`) -/
 
 open PGA.Gen.Uq in
@@ -224,6 +236,10 @@ example : se2Is [(1, 3), (2, -1/2)] (9/4 * (31/2)) = true := by decide +kernel
 /-- descriptor 7 has data but is outside the basis: error, never ignored -/
 example : errIs [(1, 3), (7, 1), (2, 1)] (.notInBasis 7) = true := by decide +kernel
 example : specX [4, 1, 2] [(2, -1/2), (1, 3)] = [0, 3, -1/2] := by decide +kernel
+
+/-- the example matrix is symmetric and diagonally dominant, hence PSD: the hypothesis of `C20_nonneg` is satisfiable -/
+example : PSD 3 u.mat :=
+  C20_diag_dominant_psd 3 u.mat ((shapeOK_iff 3 u.mat).mp (by decide +kernel)).2 (by decide +kernel) (by decide +kernel)
 
 end Ex20
 
